@@ -399,6 +399,11 @@ fn check(property: &str, tier: &str, base_seed: u64, runs_override: Option<u64>)
                                         twin.env.insert("RUST_LOG".into(), "trace".into());
                                     }
                                     twin.absolute_input = !run.absolute_input;
+                                    // same content, other bytes: permuted object members, other white space
+                                    let mut rr = verifsim::prng::Rng::new(seed ^ 0xD0C);
+                                    if let Some(re) = reencode_json(&run.doc, &mut rr) {
+                                        twin.doc = re;
+                                    }
                                     match execute_cli(&twin, tools, work) {
                                         Ok((o2, _)) => {
                                             let same = o2.exit_code == obs.exit_code && o2.stdout == obs.stdout && o2.target_bytes == obs.target_bytes;
@@ -506,9 +511,7 @@ fn check(property: &str, tier: &str, base_seed: u64, runs_override: Option<u64>)
         }
         let min = if twin.is_none() { shrink_cli(run, key, &tools, &work, &cache) } else { run.clone() };
         let mut twin_min = twin.clone();
-        if let Some(t) = twin_min.as_mut() {
-            t.doc = min.doc.clone();
-        }
+        let _ = &mut twin_min;
         let rf = CliReplay {
             property: property.to_string(),
             engine: "procsim".into(),
